@@ -7,7 +7,7 @@
 //	c12-tables -tab tables.json -out res.ndjson
 //	    tables.json = {"tab":[256 ints],"r8":[65536 ints]} as emitted by TLC (SlotGen, Gen_SlotTab.cfg).
 //	    Compares the real table with tab; the real crc16 on all 1, 2 and 3 byte keys with the step table
-//	    applied once per byte (crc = r8[crc ^ b<<8]); VerifSlotOf = crc mod 16384 on the keys without '{'.
+//	    applied once per byte (crc = r8[crc ^ b<<8]); slotOf (the real chooseHost) = crc mod 16384 on the keys without '{'.
 //	c12-keys -in keys.ndjson -out res.ndjson
 //	    keys.ndjson = {"k":[bytes],"t":[bytes],"s":slot} per line (SlotGen, Gen_SlotKeys*.cfg).
 //	c12-random -tab tables.json -n N -short M -out res.ndjson -trace trace.json
@@ -23,6 +23,7 @@ import (
 	"fmt"
 	"math/rand"
 	"os"
+	"strconv"
 	"sync"
 
 	redis "github.com/samaritan-proxy/samaritan/proc/redis"
@@ -105,6 +106,36 @@ func toBytes(a []int) []byte {
 
 const maxReported = 64
 
+// slotOf returns the slot the real routing function routes key by: a real upstream with three seed hosts
+// (redis.VerifNewRouter) whose table gives slot i to the instance with address "i"; the answer is the
+// address chooseHost returns.  -1: the request went to a seed host (not routed by slot), -2: chooseHost
+// returned an error, -3: chooseHost panicked.
+var (
+	slotRouterOnce sync.Once
+	slotRouter     *redis.VerifRouter
+)
+
+func slotOf(key []byte) (slot int) {
+	slotRouterOnce.Do(func() {
+		slotRouter = redis.VerifNewRouter("c12_slotof", []string{"192.0.2.1:7000", "192.0.2.2:7000", "192.0.2.3:7000"})
+		slotRouter.SetTable(func(i int) string { return strconv.Itoa(i) })
+	})
+	defer func() {
+		if p := recover(); p != nil {
+			slot = -3
+		}
+	}()
+	addr, err := slotRouter.Route("set", key)
+	if err != nil {
+		return -2
+	}
+	n, err := strconv.Atoi(addr)
+	if err != nil {
+		return -1
+	}
+	return n
+}
+
 type reporter struct {
 	mu  sync.Mutex
 	w   *cli.NDJSONWriter
@@ -161,7 +192,7 @@ func tables(args []string) error {
 			rep.mismatch(part, key, "crc16", []int{got}, []int{want})
 		}
 		if bytes.IndexByte(key, '{') < 0 {
-			if s := redis.VerifSlotOf(key); s != want%16384 {
+			if s := slotOf(key); s != want%16384 {
 				rep.mismatch(part, key, "slot", []int{s}, []int{want % 16384})
 			}
 		}
@@ -254,7 +285,7 @@ func keys(args []string) error {
 		if !bytes.Equal(cp, key) {
 			rep.mismatch("brace", key, "hashtag modified its argument", ints(cp), v.K)
 		}
-		if s := redis.VerifSlotOf(key); s != v.S {
+		if s := slotOf(key); s != v.S {
 			rep.mismatch("brace", key, "slot", []int{s}, []int{v.S})
 		}
 		return nil
@@ -350,7 +381,7 @@ func random(args []string) error {
 		if c := int(redis.VerifCRC16(tag)); c != want {
 			rep.mismatch("long", clip(key), fmt.Sprintf("crc16 of the tag (tag length %d)", len(tag)), []int{c}, []int{want})
 		}
-		if s := redis.VerifSlotOf(key); s != want%16384 {
+		if s := slotOf(key); s != want%16384 {
 			rep.mismatch("long", clip(key), fmt.Sprintf("slot (key length %d)", len(key)), []int{s}, []int{want % 16384})
 		}
 	}
@@ -370,7 +401,7 @@ func random(args []string) error {
 			}
 		}
 		tag := redis.VerifHashTag(append([]byte{}, key...))
-		recs = append(recs, traceRec{K: ints(key), T: ints(tag), C: int(redis.VerifCRC16(tag)), S: redis.VerifSlotOf(key)})
+		recs = append(recs, traceRec{K: ints(key), T: ints(tag), C: int(redis.VerifCRC16(tag)), S: slotOf(key)})
 	}
 	b, err := json.Marshal(recs)
 	if err != nil {
